@@ -139,3 +139,18 @@ def graph_cases(spec, extra=None, sigrev=False, sigrev_extra=None):
           if sigrev_extra:
             c2.update(sigrev_extra)
           yield c2
+
+
+def multi_cases(types, extra=None, share=False):
+  """Two-subgraph (two-signature) models: ordered pairs of one-operator graphs
+  with disjoint name prefixes."""
+  alpha = eg.alphabet(types, 'first')
+  g1 = [ops for ops in eg.histories(1, alpha)]
+  for a in g1:
+    for b in g1:
+      c = {'ir': {'subgraphs': [
+          {'ops': a, 'exports': []},
+          {'ops': b, 'exports': [], 'prefix': 'b_', 'key': 'sig1'}]}}
+      if extra:
+        c.update(extra)
+      yield c
